@@ -47,6 +47,7 @@ MUTATIONS = {
         ('reconnect', 'tonic/src/transport/channel/service/reconnect.rs', r'if let Some\(error\) = self\.error\.take\(\) \{\s*tracing::debug!\("error: \{\}", error\);', 'if let Some(error) = self.error.take() {\n            self.state = State::Idle;', 'handing out the parked error also drops the connection'),
     ],
     'C01': [
+        ('prostcodec', 'tonic/src/codec/prost.rs', r'\.map\(Option::Some\)', '.map(|_m| None)', 'every decoded message is dropped (Ok(None))'),
         ('decode', 'tonic/src/codec/decode.rs', r'frame\.map_data\(\|mut buf\| buf\.copy_to_bytes\(buf\.remaining\(\)\)\)', 'frame.map_data(|mut buf| buf.copy_to_bytes(buf.chunk().len()))', 'only the first segment of a non-contiguous DATA buffer reaches the decoder'),
         ('decode', 'tonic/src/codec/decode.rs', r'let len = self\.buf\.get_u32\(\) as usize;', 'let len = (self.buf.get_u32() as usize) & 0x00ff_ffff;', 'length prefix read modulo 2^24'),
         ('encode', 'tonic/src/codec/encode.rs', r'buf\.reserve\(HEADER_SIZE\);\s*unsafe \{\s*buf\.advance_mut\(HEADER_SIZE\);\s*\}', 'buf.reserve(HEADER_SIZE);\n    unsafe {\n        buf.advance_mut(HEADER_SIZE - 1);\n    }', 'header slot one byte short'),
@@ -74,6 +75,7 @@ MUTATIONS = {
         ('clientglue', 'tonic/src/client/grpc.rs', r'if let Some\(trailers\) = body\.trailers\(\)\.await\? \{', 'if let Ok(Some(trailers)) = body.trailers().await {', 'error status in the trailers of a unary call ignored'),
     ],
     'C03': [
+        ('prostcodec', 'tonic/src/codec/prost.rs', r'item\.encode\(buf\)\s*\.expect\("Message only errors if not enough space"\);', 'let _ = &item;', 'the encoder writes nothing'),
         ('encode', 'tonic/src/codec/encode.rs', r'error: None,\s*role: Role::Server,', 'error: None,\n                role: Role::Client,', 'server bodies built in the client role: no trailers'),
         ('serverglue', 'tonic/src/server/grpc.rs', r'\.insert\(http::header::CONTENT_TYPE, GRPC_CONTENT_TYPE\);', '.insert(http::header::CONTENT_TYPE, http::HeaderValue::from_static("application/json"));', 'response content-type'),
         ('encode', 'tonic/src/codec/encode.rs', r'Role::Client => None,', 'Role::Client => Some(Status::ok("").to_header_map()),', 'client body emits trailers'),
@@ -101,6 +103,7 @@ MUTATIONS = {
         ('decode', 'tonic/src/codec/decode.rs', r'(\n\s*)self\.buf\.reserve\(len\);', r'', 'n/a'),
     ],
     'C07': [
+        ('prostcodec', 'tonic/src/codec/prost.rs', r'Status::internal\(error\.to_string\(\)\)', 'Status::unknown(error.to_string())', 'a protobuf parse error is reported as UNKNOWN'),
         ('decode', 'tonic/src/codec/decode.rs', r'Err\(Status::internal\("Unexpected EOF decoding stream\."\)\)', 'Ok(None)', 'a truncated stream ends cleanly'),
         ('decode', 'tonic/src/codec/decode.rs', r'f => \{\s*trace!\("unexpected compression flag"\);', 'f if f > 2 => {\n                    trace!("unexpected compression flag");', 'flag 2 is not refused (no arm: must be at least undecided)'),
         ('decode', 'tonic/src/codec/decode.rs', r'self\.decompress_buf\.clear\(\);\n', '', 'stale decompressed bytes of the previous message are kept'),
@@ -108,6 +111,8 @@ MUTATIONS = {
         ('decode', 'tonic/src/codec/decode.rs', r'self\.inner\.state = State::Error\(None\);\s*return Poll::Ready\(Some\(Err\(status\)\)\);\s*\}\s*\}\s*\n\s*match ready!', 'return Poll::Ready(Some(Err(status)));\n                }\n            }\n\n            match ready!', 'decode error does not enter the error state'),
     ],
     'C08': [
+        ('b64cfg', 'tonic/src/util.rs', r'(STANDARD: GeneralPurpose[\s\S]*?)DecodePaddingMode::Indifferent', r'\1DecodePaddingMode::RequireCanonical', 'padded-only decoding: unpadded binary metadata from a peer is refused'),
+        ('b64cfg', 'tonic/src/util.rs', r'\.with_encode_padding\(false\)', '.with_encode_padding(true)', 'the unpadded engine pads'),
         ('metadata', 'tonic/src/metadata/map.rs', r'(impl<\'a> Iterator for Values<\'a> \{[\s\S]*?)if Ascii::is_valid_key\(name\.as_str\(\)\) \{', r'\1if !Binary::is_valid_key(name.as_str()) && name.as_str().len() > 3 {', 'Values presents short-named ASCII entries as binary'),
         ('metadata', 'tonic/src/metadata/map.rs', r'(impl<\'a> Iterator for Keys<\'a> \{[\s\S]*?)KeyRef::Ascii\(MetadataKey::unchecked_from_header_name_ref\(key\)\)\n            \} else \{\n                KeyRef::Binary', r'\1KeyRef::Binary(MetadataKey::unchecked_from_header_name_ref(key))\n            } else {\n                KeyRef::Ascii', 'Keys presents every key on the wrong side'),
         ('metadata', 'tonic/src/metadata/map.rs', r'self\.headers\.extend\(other\.headers\);', 'self.headers = other.headers;', 'merge drops the existing entries'),
